@@ -175,6 +175,7 @@ type world struct {
 	withhold   bool // the torrent is not reading: emitted events stay in its channel / the overflow list
 	held       []heldOp
 	pendingEv  int      // events emitted while withholding, not yet attributed
+	spill      int64    // block after the one an over-long payload was sent for (-1: none)
 	stale      []uint32 // blocks that were queued but not sent when the remote last choked us
 	last       stepAcc
 	fastRate   bool
@@ -572,6 +573,7 @@ type stepAcc struct {
 // feedTor hands one peer-emitted event to the real torrent and emits the `tev` op.
 func (w *world) feedTor(e peer.TorEvent, acc *stepAcc, synthetic bool) {
 	full, _ := tevCanon(e, vhlib.Hex)
+	w.quiesce()
 	before := w.t.VerifInfoState()
 	var err error
 	ta, pn, hung := guarded(func() { err = tor.VerifHandleEvent(context.Background(), w.t, e) })
@@ -734,6 +736,7 @@ func pevCanon(w *world, e peer.PeerEvent) (string, bool) {
 // runPeer executes one handler call on the peer (message, torrent command or the exit
 // path), then everything it gives rise to, and applies the oracle.
 func (w *world) runPeer(kind string, opText string, wire int, m protocol.Message, call func() error) {
+	w.quiesce()
 	w.p.VerifPinActive(w.p.VerifActiveOld())
 	w.p.VerifRateRegime(w.fastRate)
 	acc := &stepAcc{wire: wire, what: kind}
@@ -951,6 +954,50 @@ func stateTok(w *world) string {
 	return s
 }
 
+// quiesce: the hash goroutines (Pieces.Finalise, started by a completing TorData or by the
+// scheduler when it finds a full piece) run concurrently; while one holds a piece busy
+// AddData refuses data for it.  Before every call of the real code we wait until no piece is
+// busy, so that the piece store's verdict does not depend on goroutine timing.
+func (w *world) quiesce() {
+	if g := runtime.NumGoroutine(); baseGoroutines == 0 || g < baseGoroutines {
+		baseGoroutines = g // the floor seen so far: nothing of the real code is running then
+	}
+	if !w.t.InfoComplete() || w.poisoned {
+		return
+	}
+	deadline := time.Now().Add(3 * time.Second)
+	n := w.t.Pieces.Num()
+	for {
+		busy := false
+		for i := 0; i < n; i++ {
+			if w.t.Pieces.VerifPiece(uint32(i)).State == 2 {
+				busy = true
+				break
+			}
+		}
+		// a hash goroutine that has been started (`go finalisePiece`) but not yet scheduled has
+		// not marked its piece busy: the piece table alone does not show it.  Goroutine counts are
+		// cheap; only when more goroutines exist than before the first call do we look for a
+		// tor.finalisePiece frame (it lives until its Have/BadPeers has been queued).
+		if !busy && runtime.NumGoroutine() > baseGoroutines && finaliseInFlight() {
+			busy = true
+		}
+		if !busy || time.Now().After(deadline) {
+			return
+		}
+		time.Sleep(200 * time.Microsecond)
+	}
+}
+
+// the smallest number of goroutines seen at a call boundary (the harness's own)
+var baseGoroutines = 0
+
+func finaliseInFlight() bool {
+	buf := make([]byte, 256<<10)
+	n := runtime.Stack(buf, true)
+	return strings.Contains(string(buf[:n]), "tor.finalisePiece")
+}
+
 // hold: from now on the torrent does not read its event channel (it is busy elsewhere); the
 // property says a message is handled to the end regardless.
 func (w *world) hold() {
@@ -1015,6 +1062,7 @@ func (w *world) tick() {
 	if w.withhold || w.poisoned {
 		return
 	}
+	w.quiesce()
 	_, pn, hung := guarded(func() { tor.VerifPeriodicRequest(context.Background(), w.t) })
 	res := "ok"
 	switch {
